@@ -1,0 +1,37 @@
+//go:build verif
+
+// Package verifhook holds seams used only by the deterministic-simulation
+// harness in /verif. With the "verif" build tag off (the default) every hook is
+// a constant no-op that the compiler removes; shipped behaviour is unchanged.
+package verifhook
+
+import (
+	"context"
+	"net"
+)
+
+// Enabled reports whether the hooks are compiled in.
+const Enabled = true
+
+// DialFunc, if set, replaces outbound TCP dials (client.Connect, ccb broker dials).
+var DialFunc func(ctx context.Context, network, addr string) (net.Conn, error)
+
+// ListenFunc, if set, replaces net.Listen for the CCB reverse-connect listener.
+var ListenFunc func(network, addr string) (net.Listener, error)
+
+// IdentFunc, if set, replaces the hostname and pid embedded in session ids.
+var IdentFunc func(hostname string, pid int) (string, int)
+
+// Dialer returns the dial override, or nil.
+func Dialer() func(ctx context.Context, network, addr string) (net.Conn, error) { return DialFunc }
+
+// Listener returns the listen override, or nil.
+func Listener() func(network, addr string) (net.Listener, error) { return ListenFunc }
+
+// Ident maps the process identity used in generated session ids.
+func Ident(hostname string, pid int) (string, int) {
+	if IdentFunc != nil {
+		return IdentFunc(hostname, pid)
+	}
+	return hostname, pid
+}
